@@ -308,11 +308,46 @@ func FuncName(f *ssa.Function) string {
 	if f == nil {
 		return "<nil>"
 	}
-	s := f.String()
-	s = strings.ReplaceAll(s, ModPath+"/", "")
-	s = strings.ReplaceAll(s, ModPath, "header")
-	// drop type arguments of instantiations for readability
-	return s
+	if f.Parent() != nil {
+		n := f.Name()
+		if i := strings.LastIndex(n, "$"); i >= 0 {
+			n = n[i:]
+		} else {
+			n = "$" + n
+		}
+		return FuncName(f.Parent()) + n
+	}
+	if o := f.Origin(); o != nil {
+		f = o
+	}
+	pkg := ""
+	if f.Pkg != nil {
+		pkg = f.Pkg.Pkg.Path()
+	} else if f.Object() != nil && f.Object().Pkg() != nil {
+		pkg = f.Object().Pkg().Path()
+	}
+	switch {
+	case pkg == ModPath:
+		pkg = "header"
+	case strings.HasPrefix(pkg, ModPath+"/"):
+		pkg = strings.TrimPrefix(pkg, ModPath+"/")
+	}
+	if recv := f.Signature.Recv(); recv != nil {
+		rt := recv.Type()
+		star := ""
+		if p, ok := rt.(*types.Pointer); ok {
+			rt, star = p.Elem(), "*"
+		}
+		tn := rt.String()
+		if n, ok := rt.(*types.Named); ok {
+			tn = n.Obj().Name()
+		}
+		return pkg + ".(" + star + tn + ")." + f.Name()
+	}
+	if pkg == "" {
+		return f.Name()
+	}
+	return pkg + "." + f.Name()
 }
 
 // Pos renders a position relative to the repository directory.
